@@ -105,7 +105,7 @@ def run(tier):
         run.ob('inventory:class:' + u, 'inconclusive', 'ASTNode subclass with node-valued constructor arguments, no builder')
     specs = [dict(fn='step_%s' % n, twin='step_%s_reach' % n, replay=mk_replay(c)) for n, c in classes]
     specs += [dict(fn='repk_%s' % n, twin='repk_%s_reach' % n, replay=mk_replay(c)) for n, c in classes]
-    ch_obligations(run, path, specs, cond_to=150 if tier == 'quick' else 900, path_to=30)
+    ch_obligations(run, path, specs, cond_to=360 if tier == "quick" else 900, path_to=30)
     run.extra['node_classes'] = sorted(set(c for n, c in classes))
     # leaves: node kinds without node children (constants of every value kind, INTERVAL, variables, placeholders, raw data ..) in four parent positions
     try:
